@@ -103,7 +103,7 @@ def _eval_shard(name, text):
     return ids, ""
 
 
-def correspondence(prop, results, max_bytes=400000):
+def correspondence(prop, results, max_bytes=220000):
     """Evaluates the model on the histories of `results` (harness records of kind case) and returns
     (list of mismatching case ids | None when the evaluation itself failed, messages)."""
     shards, cur, size = [], [], 0
@@ -126,7 +126,7 @@ def correspondence(prop, results, max_bytes=400000):
         body = "Definition cases : list hcase := [\n %s]." % ";\n ".join(sh)
         texts.append(("Cases_%s_%d" % (prop, i), CASE_HEADER + body + "\nDefinition mism := Eval vm_compute in mismatches cases.\nPrint mism.\n"))
     mism, msgs = [], []
-    with ThreadPoolExecutor(max_workers=max(2, min(vlib.NCPU, 12))) as ex:
+    with ThreadPoolExecutor(max_workers=max(2, min(vlib.NCPU, 14))) as ex:
         for ids, msg in ex.map(lambda nt: _eval_shard(*nt), texts):
             if ids is None:
                 msgs.append(msg)
